@@ -746,6 +746,8 @@ class Interp:
     def call_libmethod(self, recv, name, args, kwargs, node):
         if isinstance(recv, (bool, UnknownBool)) and name in ("any", "all", "item"):
             return recv
+        if (isinstance(recv, Num) or _is_sym(recv)) and name in ("item", "real", "conjugate"):
+            return recv
         if isinstance(recv, Term):
             if ("Term", name) in self.libmeth:
                 return self.libmeth[("Term", name)](self, recv, args, kwargs, node)
@@ -1100,6 +1102,8 @@ class Interp:
     def getattr_(self, v, name, node):
         if isinstance(v, (bool, UnknownBool)) and name in ("any", "all", "item"):
             return LibMethod(v, name)
+        if (isinstance(v, Num) or _is_sym(v)) and name in ("item", "real", "conjugate"):
+            return LibMethod(v, name)        # numpy scalar protocol on a number: the number itself
         if isinstance(v, Term):
             if ("Term", name) in self.libattr:
                 return self.libattr[("Term", name)](self, v, node)
